@@ -14,6 +14,7 @@ from harness.tmpl_rt import flt0, flt1, flt2, flt3, flt4, flt5  # noqa: F401
 class WithState:
     opened = 0
     closed = 0
+    pulled = 0
 
 
 WS = WithState()
@@ -23,6 +24,7 @@ def reset(k=-1):
     _rt.reset(k)
     WS.opened = 0
     WS.closed = 0
+    WS.pulled = 0
 
 
 def kboom():
@@ -71,7 +73,22 @@ def gen(items):
     return (x for x in items)
 
 
-PRELUDE = ("<%! from harness.c03_rt import boom, kboom, below, Boom, cm, closedcount, gen, probe, pdepth, "
+def tgen(items):
+    """a LAZY iterable with observable laziness: producing an item is an evaluation point (it raises when it is
+    the crash point - a generator that fails part way) and is counted (`pulledcount()`): a loop over it must
+    interleave production and body, lose nothing written before a failure, and leave unconsumed what comes after
+    a `break` / `return`"""
+    for x in items:
+        boom()
+        WS.pulled += 1
+        yield x
+
+
+def pulledcount():
+    return "<%d>" % WS.pulled
+
+
+PRELUDE = ("<%! from harness.c03_rt import boom, kboom, below, Boom, cm, closedcount, gen, tgen, pulledcount, probe, pdepth, "
            "flt0, flt1, flt2, flt3, flt4, flt5 %>")
 
 
@@ -87,13 +104,14 @@ class NLoop:
 
     def __init__(self, index, n, parent):
         self.index = index
-        self.n = n
+        self.n = n                  # None: a lazy iterable, whose length is not known while it is consumed
         self.parent = parent
         self.first = index == 0
-        self.last = index == n - 1
         self.even = index % 2 == 0
         self.odd = index % 2 == 1
-        self.reverse_index = n - index - 1
+        if n is not None:
+            self.last = index == n - 1
+            self.reverse_index = n - index - 1
 
     def cycle(self, *values):
         if not values:
